@@ -1,5 +1,5 @@
 """C02 - Fq/Fr arithmetic exact and canonical (partial claim: constants + zero special cases)."""
-from .. import guards, consts
+from .. import guards, consts, nowrap
 
 EXPL = ('Partial claim. Exactness of add/sub/mul/Montgomery reduction for all operands (including the 2^-64-probability '
         'carry tails) is value-level and NOT decided. Decided: (R-CONST) every constant the arithmetic depends on has '
@@ -11,7 +11,10 @@ EXPL = ('Partial claim. Exactness of add/sub/mul/Montgomery reduction for all op
         'special cases the statement lists: inverse(0)=0 with the non-terminating Euclid loop on the non-zero edge, '
         'negate(0)=0 (p - a only for a != 0), Fr::square_root(0); (R-CANON) in the portable FpBase add/multiply2/subtract/reduce '
         'of every instantiated width the final `- p` / `+ p` correction is applied exactly for compare >= 0 or carry (resp. borrow): '
-        'the truth table over compare in {-1,0,1} x flag in {0,1} is evaluated on the CFG (this is the branch uniform sampling never reaches).')
+        'the truth table over compare in {-1,0,1} x flag in {0,1} is evaluated on the CFG (this is the branch uniform sampling never reaches); '
+        '(R-NOWRAP) every unsigned addition in the multi-precision layer either provably cannot wrap (exact upper bound from the widths '
+        'its operands were widened from, e.g. a*b + word + carry <= 2^128-1) or its carry-out is observed by comparing the stored sum with an '
+        'addend; multi-word subtractions compare the result with the minuend (borrow observed).')
 
 
 def run(ctx):
@@ -25,3 +28,5 @@ def run(ctx):
         n = consts.rule_field_constants(ctx, cfg, prog)
         guards.g237_field_zero_cases(ctx, cfg, prog)
         guards.canon_tables(ctx, cfg, prog)
+        ns = nowrap.rule_nowrap(ctx, cfg, prog)
+        ctx.floor('R-NOWRAP unsigned additions[%s]' % cfg, ns, 15)
